@@ -130,7 +130,9 @@ def step_job(hb, s):
     return path
 
 
-def run_job_(hb, T, zero_buffer=False):
+def run_job_(hb, T, zero_buffer=False, fixed_w=None, prior_hb=None):
+    """fixed_w: concrete buffer width (the library's own callers pass 15); prior_hb: ANOTHER boundary set assigned first in the same
+    process with the same buffer (phi before psi, as all_rotamers does) - nothing may be carried from one call to the next"""
     rot = loader.load('enspara.geometry.rotamer')
     nb = len(hb) - 1
 
@@ -138,6 +140,9 @@ def run_job_(hb, T, zero_buffer=False):
         w, angs = sym_w_angle(ctx, hb, T)
         if zero_buffer:
             ctx.add(core.to_z3_real(w) == 0)
+        if fixed_w is not None:
+            ctx.add(core.to_z3_real(w) == fixed_w)
+            w = fixed_w
         # the self-overlap regime is a recorded finding of the step lemma; end-to-end runs stay below it
         for s in range(nb):
             ctx.add(core.to_z3_bool((hb[s + 1] - hb[s]) + 2 * w < 360))
@@ -145,6 +150,8 @@ def run_job_(hb, T, zero_buffer=False):
         A0 = A.copy()
         exc = None
         try:
+            if prior_hb is not None:
+                rot._rotamers(funcs.np_array([float(x) for x in (1.0, 150.0, 185.0, 300.0)], dtype=float), list(prior_hb), w)
             r = rot._rotamers(A, list(hb), w)
         except Exception as e:
             exc = e
@@ -166,11 +173,15 @@ def run_job_(hb, T, zero_buffer=False):
             return obs
 
         def witness(model):
-            wv = ev(model, w)
+            wv = ev(model, w) if isinstance(w, SVal) else w
             av = [ev(model, a) for a in angs]
             out = {'inputs': {'boundaries': hb, 'buffer_width': float(wv), 'angles': [float(x) for x in av]}}
+            if prior_hb is not None:
+                out['inputs']['boundaries assigned first in the same process'] = list(prior_hb)
             with core.concrete_mode():
                 try:
+                    if prior_hb is not None:
+                        rot._rotamers(np.array([1.0, 150.0, 185.0, 300.0]), list(prior_hb), float(wv))
                     rr = rot._rotamers(np.array([float(x) for x in av]), list(hb), float(wv))
                 except Exception as e:
                     out.update(exception=repr(e), out=None, violated=['raises ' + type(e).__name__],
@@ -277,6 +288,10 @@ def jobs(tier):
         for T in ((1, 2, 3) if q else (1, 2, 3, 4, 5, 6)):
             add('run_job_', 'run[%s,T=%d]' % (hb, T), hb=hb, T=T)
         add('run_job_', 'run[%s,T=3,w=0]' % hb, hb=hb, T=3, zero_buffer=True)
+    # the library's own calling pattern: buffer 15 (concrete), one boundary set assigned after another in the same process
+    for prior, hb in (([0, 180, 360], [0, 160, 360]), ([0, 160, 360], [0, 180, 360]), ([0, 160, 360], [0, 120, 240, 360])):
+        add('run_job_', 'run[%s,T=3,w=15,after %s in the same process]' % (hb, prior), hb=hb, T=3, fixed_w=15.0, prior_hb=prior)
+        add('run_job_', 'run[%s,T=2,w=0,after %s in the same process]' % (hb, prior), hb=hb, T=2, fixed_w=0.0, prior_hb=prior)
     for L in ((2, 3, 4, 5) if q else (2, 3, 4, 5, 6, 7, 8)):
         add('transitions_job', 'transitions[1d,L=%d]' % L, shape=(L,))
     for R in (1, 2, 3):
